@@ -81,7 +81,9 @@ constexpr int transpose_target(int n)
   return n <= N_CSR_F32 ? n : (n == N_DENSE_D64 || n == N_DENSE_F32) ? n : n == N_B23_D64 ? N_B32_D64 : n == N_B32_D64 ? N_B23_D64 : -1;
 }
 constexpr bool has_layout(int n) { return n != N_DENSE_D64 && n != N_DENSE_F32; }
-constexpr bool has_graph(int n) { return n == N_CSR_D64 || n == N_B23_D64; }
+constexpr bool has_graph(int n) { return n == N_CSR_D64 || n == N_B23_D64 || n == N_CSCR_D64 || n == N_BAND_D64; }
+/// CSCR(Graph) leaves its values uninitialised (allocating ctor + convert), the other Graph ctors zero them
+static bool graph_values_defined(int n) { return n != N_CSCR_D64; }
 constexpr int mirror_target(int n) { return n == N_CSR_D64 ? N_CSCR_D64 : n == N_CSR_F32 ? N_CSCR_F32 : -1; }
 
 struct Obj { int node = -1; virtual ~Obj() {} };
@@ -393,6 +395,15 @@ static std::string op_full(const Op& o, const Model& M)
   return s;
 }
 static bool is_leaf(const Op& o) { return (is_clone(o) && (o.a == int(CloneMode::Layout) || o.a == int(CloneMode::Allocate))) || o.k == O_LAYOUT || o.k == O_GRAPH; }
+static bool graph_values_defined(int n);
+/// are the values of the result defined by contract?
+static bool op_defined(const Op& o, int src)
+{
+  if(o.k == O_LAYOUT) return false;
+  if(is_clone(o) && (o.a == int(CloneMode::Layout) || o.a == int(CloneMode::Allocate))) return false;
+  if(o.k == O_GRAPH) return graph_values_defined(src);
+  return true;
+}
 static bool is_mutating(const Op& o) { return o.k == O_PERM || o.k == O_SHRINK || (o.k == O_TRANS && o.a == 2); }
 
 /// expected sharing between result and source: bit0 data arrays shared, bit1 index arrays shared
@@ -612,9 +623,20 @@ static ObjP apply_op(const Op& o, ObjP& X, const Model& M, ObjP* target = nullpt
     case O_GRAPH:
       if constexpr(has_graph(ns))
       {
-        Adjacency::Graph g(Adjacency::RenderType::as_is, x.mat);
         auto y = take_target<ns>(target);
-        y->mat = MS(g);
+        if constexpr(NodeT<ns>::fmt == F_CSCR)
+        {
+          // CSCR is no adjactor: the graph is built from the reference pattern
+          std::vector<Index> dp(1, 0), ii;
+          for(Index i = 0; i < M.m; ++i) { for(Index j = 0; j < M.n; ++j) if(M.S[i * M.n + j]) ii.push_back(j); dp.push_back(Index(ii.size())); }
+          Adjacency::Graph g(M.m, M.n, Index(ii.size()), dp.data(), ii.data());
+          y->mat = MS(g);
+        }
+        else
+        {
+          Adjacency::Graph g(Adjacency::RenderType::as_is, x.mat);
+          y->mat = MS(g);
+        }
         Y = std::move(y);
       }
       break;
@@ -1166,7 +1188,7 @@ struct Search
       Model M2 = M; model_step(M2, o);
       const int nt = M2.node;
       const std::string& opn = op_name(o, ns);
-      const bool defined = !(o.k == O_LAYOUT || (is_clone(o) && (o.a == int(CloneMode::Layout) || o.a == int(CloneMode::Allocate))));
+      const bool defined = op_defined(o, M.node);
       const bool idx_defined = !(is_clone(o) && o.a == int(CloneMode::Allocate));
       {
         // the same call a second time on the already filled target
@@ -1366,7 +1388,7 @@ struct Search
         c.count("transitions"); c.count("derived_object_operations");
         if(!Z) continue;
         const Raw rz = raw_of(*Z);
-        const bool defined = !(o.k == O_LAYOUT || (is_clone(o) && (o.a == int(CloneMode::Layout) || o.a == int(CloneMode::Allocate))));
+        const bool defined = op_defined(o, M.node);
         check_state(*Z, rz, M2, opn, M, defined, !(is_clone(o) && o.a == int(CloneMode::Allocate)));
         if(!mut && okey(*Y) != kx) fail_once(opn + ": the operand itself was modified", "");
         if(!moved && !(mut && full_alias) && okey(*X) != kx) fail_once(opn + ": changes the matrix the operand was derived from", "now " + lay_str(actual(raw_of(*X), ns)));
@@ -1422,7 +1444,7 @@ struct Search
           Model M2 = M; model_step(M2, o);
           const bool mut = is_mutating(o);
           const bool leaf = is_leaf(o);
-          const bool defined = !(o.k == O_LAYOUT || (is_clone(o) && (o.a == int(CloneMode::Layout) || o.a == int(CloneMode::Allocate))));
+          const bool defined = op_defined(o, M.node);
           const bool idx_defined = !(is_clone(o) && o.a == int(CloneMode::Allocate));
           // generic convert(MT_) between CSR and CSCR with an empty row: reads beyond the initialised part of its
           // temporary row pointer on the pinned tree (undefined behaviour, differs from process to process), so the
